@@ -132,6 +132,7 @@ func c20RealScenarios(tier string) []pm.RealParams {
 	if tier != "thorough" {
 		seqs = append(seqs, "HSF", "HHF", "SHF", "FHS")
 	}
+	seqs = append(seqs, "CSF", "CCF")
 	cfgs := [][2]int{{2, 3}}
 	if tier == "thorough" {
 		cfgs = append(cfgs, [2]int{1, 2}, [2]int{2, 2})
@@ -143,7 +144,8 @@ func c20RealScenarios(tier string) []pm.RealParams {
 	}
 	// one worker that served a request, sat idle for longer than --timeout, and serves again:
 	// a request that takes less than --timeout is answered (P = idle pause of 1.6 s, --timeout 1 s)
-	idle := []string{"FPS", "SPS", "FPF", "H", "HF", "HH", "GH", "FGHF"}
+	// (C: the hanging request has started a helper program that outlives its worker)
+	idle := []string{"FPS", "SPS", "FPF", "H", "HF", "HH", "GH", "FGHF", "C", "CF", "CC"}
 	if tier == "thorough" {
 		idle = append(idle, "FPFPS", "SPFPS", "HPS", "FPH")
 	}
